@@ -302,6 +302,19 @@ def _argsort(rng):
     return None
 
 
+def _equivalents(rng):
+    for _ in range(N):
+        n = rng.randint(0, 7)
+        a = np.arange(n * 2, dtype=float).reshape(n, 2)
+        m = np.array([rng.random() < 0.5 for _ in range(n)], dtype=bool)
+        if not np.array_equal(np.compress(m, a, axis=0), a[m]) or not np.array_equal(np.flatnonzero(m), np.where(m)[0]):
+            return "compress / flatnonzero"
+        x, y = np.arange(n, dtype=float), np.arange(n, dtype=float) * 2
+        if not np.array_equal(np.column_stack((x, y)), np.c_[x, y]):
+            return "column_stack"
+    return None
+
+
 def _truediv(rng):
     for _ in range(N):
         a, b = rng.random() * 10 - 5, rng.choice([0.5, 2.0, 4.0, -8.0])
@@ -315,7 +328,7 @@ AUDITS = [
     ("T-np.mask_select", _mask_select), ("T-np.delete", _delete), ("T-np.vstack", _vstack), ("T-np.ravel C-order of rank-2", _ravel2),
     ("T-np.ravel C-order of rank-3", _ravel3), ("T-np.modf", _modf), ("T-np.astype", _astype), ("T-np.min/max", _extrema), ("T-np.max/min", _extrema),
     ("T-np.meshgrid", _meshgrid), ("T-np.cumsum", _cumsum), ("T-np.sum", _cumsum), ("T-np.fancy assignment", _fancy_assign), ("T-np.divide", _divide),
-    ("T-np.true division", _truediv), ("T-np.argsort", _argsort), ("T-np.diff", _argsort), ("T-np.reshape", _argsort), ("T-rec.fromarrays", _rec), ("T-py.uuid4", _uuid), ("T-py.str(uuid)", _uuid), ("T-py.UUID(str)", _uuid),
+    ("T-np.true division", _truediv), ("T-np.compress", _equivalents), ("T-np.column_stack", _equivalents), ("T-np.argsort", _argsort), ("T-np.diff", _argsort), ("T-np.reshape", _argsort), ("T-rec.fromarrays", _rec), ("T-py.uuid4", _uuid), ("T-py.str(uuid)", _uuid), ("T-py.UUID(str)", _uuid),
     ("T-py.str concat", _concat), ("T-py.entities are truthy", _entities_truthy), ("T-h5: a geoh5 file has exactly one", _one_project), ("T-h5", _h5),
 ]
 # names that assume nothing (a function left uninterpreted) or a modelling choice that no test can confirm
